@@ -524,7 +524,7 @@ func c05MergeLimit(c *core.Ctx, r *core.Report) {
 		expr := dpCall.Call.Args[0]
 		fresh := false
 		if call, ok := expr.(*ssa.Call); ok {
-			if f := core.CalleeFunc(call); f != nil && f.Name() == "ShallowCopy" {
+			if f := core.CalleeFunc(call); f != nil && c.BaseName(f) == "ShallowCopy" {
 				fresh = true
 			}
 		}
